@@ -211,7 +211,9 @@ def run(ctx) -> None:
     sites = [s for s in sub.find_sites(fn, include_nested=False) if not sub.is_literal_key(s)]
     ctx.floor("C16.R5-anchored-substitution", len(sites), 1, "substitution sites in _compute_memoization_info")
     for s in sites:
-        check_site(ctx, "C16.R5-anchored-substitution", fn, s, "a declared reference")
+        check_site(ctx, "C16.R5-anchored-substitution", fn, s, "a declared reference",
+                   word_boundary_ok="keys are all declared references processed longest-first and the inserted text is "
+                                    "'<kind>:<hex digest>:<method>', which cannot contain a key after a non-word character")
         order = sub.loop_order(fn, s)
         ok = order in ("longest-first", None)
         ctx.ob("C16.R5-anchored-substitution", s.call, ok, "references are substituted longest first" if ok else
